@@ -29,6 +29,9 @@ type c16Op struct {
 	Fs    []string `json:"fs,omitempty"`
 	How   string   `json:"how,omitempty"` // drop: close | disconnect | poke
 	Topic string   `json:"topic,omitempty"`
+	// admin / drop only: force the next Race ops (connect, subscribe of the same id) INTO this one, while the broker is
+	// parked in the Disconnect pipeline of the connection it is closing
+	Race int `json:"race,omitempty"`
 }
 
 type c16In struct {
@@ -62,6 +65,7 @@ type c16Snap struct {
 
 type c16Step struct {
 	Skip    bool     `json:"skip"`
+	NoSnap  bool     `json:"nosnap,omitempty"` // no quiescent state to observe here (steps forced into each other); the next snapshot covers it
 	Eof     bool     `json:"eof"`
 	Recv    []int    `json:"recv"`
 	Filters []string `json:"filters"`
@@ -186,6 +190,7 @@ func c16Run(in c16In) (obs c16Obs) {
 		}
 	}
 	npub := 0
+	racing := 0 // ops still to be executed inside the window of a parked close
 	for _, op := range in.Ops {
 		if c15Stuck() {
 			obs.Bad = append(obs.Bad, "hung: case abandoned")
@@ -247,7 +252,20 @@ func c16Run(in c16In) (obs c16Obs) {
 				c.cli.waitFor(func() bool { return false })
 				c.cli.closeSock()
 			default:
+				park := op.Race > 0 && racing == 0 && !c.cli.client.disconnected() && !c.cli.client.session.cleanSession()
+				if park {
+					env.gate.arm(c.cli.cid)
+				}
 				c.cli.closeSock()
+				if park {
+					if env.gate.waitEntered() {
+						// the old connection is now between Client.close() and removeClient
+						racing = op.Race + 1
+					} else {
+						obs.Bad = append(obs.Bad, "hung: teardown never reached the Disconnect pipeline")
+						env.gate.open()
+					}
+				}
 			}
 			if !st.Skip {
 				c.gone = true
@@ -258,8 +276,30 @@ func c16Run(in c16In) (obs c16Obs) {
 				st.Skip = true
 				break
 			}
+			park := false
+			if op.Race > 0 && racing == 0 {
+				env.b.RLock()
+				cur, ok := env.b.clients[op.Cid]
+				env.b.RUnlock()
+				park = ok && !cur.disconnected()
+			}
+			if park {
+				env.gate.arm(op.Cid)
+			}
 			if code := env.httpDeleteSession(op.Cid); code != 200 {
 				obs.Bad = append(obs.Bad, fmt.Sprintf("admin delete: http %d", code))
+			}
+			if park {
+				if !env.gate.waitEntered() {
+					obs.Bad = append(obs.Bad, "hung: admin delete never reached the Disconnect pipeline")
+					env.gate.open()
+				} else if env.b.TryRLock() {
+					// the broker is NOT locked while it disconnects the client: a reconnect fits into the window
+					env.b.RUnlock()
+					racing = op.Race + 1
+				} else {
+					env.gate.open() // the delete holds the broker lock: a reconnect is serialised after it
+				}
 			}
 		case "extput":
 			// another broker instance on the same storage writes the persistent session of this id;
@@ -286,6 +326,10 @@ func c16Run(in c16In) (obs c16Obs) {
 			}
 			env.store.put(sessionStoreKey(op.Cid), str)
 		case "pub":
+			if racing > 0 {
+				st.Skip = true
+				break
+			}
 			st.Filters = append(st.Filters, c16Filters...)
 			for _, f := range c16Filters {
 				st.Match = append(st.Match, c15Match(f, op.Topic))
@@ -316,7 +360,15 @@ func c16Run(in c16In) (obs c16Obs) {
 		default:
 			st.Skip = true
 		}
-		if !st.Skip {
+		if racing > 0 {
+			racing--
+			if racing == 0 {
+				env.gate.open()
+			}
+		}
+		if racing > 0 {
+			st.NoSnap = true
+		} else if !st.Skip {
 			settle(&st)
 			st.Snap = c16Snapshot(env, conns)
 		}
@@ -392,6 +444,25 @@ func c16Gen(r *vfRand, adv bool) c16In {
 		}
 	}
 	switch shape := r.Intn(10); {
+	case shape == 9:
+		// the device reconnects and subscribes WHILE the broker is closing its old connection (admin delete, or the
+		// old connection's own teardown): the new connection's registration, session, subscriptions and delivery must be intact
+		connect("A", r.Chance(1, 3))
+		in.Ops = append(in.Ops, c16Op{Op: "sub", K: 0, Subs: subs()})
+		if r.Bool() {
+			in.Ops = append(in.Ops, c16Op{Op: "admin", Cid: "A", Race: 2})
+		} else {
+			in.Ops = append(in.Ops, c16Op{Op: "drop", K: 0, How: "close", Race: 2})
+			open = open[:0]
+		}
+		connect("A", r.Bool())
+		in.Ops = append(in.Ops, c16Op{Op: "sub", K: 1, Subs: subs()})
+		pubAll()
+		if r.Bool() && len(open) > 1 {
+			drop(0, r.PickStr("poke", "close"))
+			in.Ops = append(in.Ops, c16Op{Op: "pub", Topic: "a/b"})
+		}
+		return in
 	case shape < 2:
 		// drop and come back: the stored session must give exactly the live set back (or nothing, if clean);
 		// in between the session may be deleted through the admin endpoint or rewritten by another broker instance
